@@ -688,6 +688,12 @@ def circuits(n):
         out["entangled"] = ry + [("CNOT", (3, 1)), ("RX(u)", (2,)), ("SWAP", (0, 3))]
         # three-qubit gates whose qubits are scattered / out of order inside the register (numpy and sympy lifting paths)
         out["scattered3"] = ry + [("X|c2", (0, 3, 2)), ("RX(u)|c2", (1, 3, 2))]
+    # circuits that END in qubit-permuting gates (several, overlapping) - a tail a simulator may be tempted to treat by relabelling
+    if n == 2:
+        out["swap-tail"] = ry + [("RX(u)", (0,)), ("SWAP", (0, 1))]
+    if n == 3:
+        out["swap-tail"] = ry + [("RX(u)", (1,)), ("SWAP", (0, 1)), ("SWAP", (1, 2))]
+        out["perm-tail"] = ry + [("CNOT", (0, 2)), ("SWAP", (2, 0)), ("ISWAP", (0, 1)), ("SWAP", (1, 2)), ("SWAP", (0, 1))]
     # multi-qubit gates whose parameter is still symbolic when the state is computed (sympy lifting path)
     if n == 2:
         out["sym2q"] = ry + [("RY(v)|c1", (0, 1)), ("XX(u)", (1, 0))]
@@ -730,12 +736,12 @@ def instances(tier, seed):
     widths = (1, 2, 3, 4)
     for n in widths:
         for cname, specs in circuits(n).items():
-            if tier == "quick" and (cname == "chain" or (n == 4 and cname != "scattered3")):
+            if tier == "quick" and (cname in ("chain", "perm-tail") or (n == 4 and cname != "scattered3")):
                 continue
             sp = [[g, list(q)] for g, q in specs]
             ops = z_ops(n) + other_ops(n)
             for ol, terms in ops:
-                if tier == "quick" and n == 3 and cname == "entangled" and not (ol.startswith("Z") or stable_pick((ol, cname), 2, seed)):
+                if tier == "quick" and n == 3 and cname in ("entangled", "swap-tail") and not (ol.startswith("Z") or stable_pick((ol, cname), 2, seed)):
                     continue
                 if tier == "quick" and n == 4 and not (ol in ("Z[0]", "Z[1]", "Z[2]", "Z[3]", "X2", "Y3") or stable_pick((ol, cname), 6, seed)):
                     continue
@@ -760,6 +766,12 @@ def instances(tier, seed):
                     if tier == "quick" and w == 3 and not stable_pick((t, s), 3, seed):
                         continue
                     items.append(("shot", {"shots": [list(t)], "terms": [[list(s), "k0"]], "bessel": False, "label": f"single shot {t} Z{list(s)}"}))
+    # wide registers: operators on a strict subset of the measured qubits, indices beyond 8 (symbolic coefficients)
+    from . import c10
+
+    for it in c10.instances(tier, seed):
+        if it[0] == "stats" and it[1]["label"].startswith("wide register") and not it[1]["bessel"]:
+            items.append(("shot", dict(it[1])))
     for n in (1, 2, 3):
         items.append(("counts", {"n": n, "label": f"count strings width {n}"}))
         for bits in itertools.product((0, 1), repeat=n):
